@@ -97,7 +97,7 @@ Lemma next_not_blocked th : ~ is_blocked (next th).
 Proof. unfold next, is_blocked. destruct (prog th) as [|o r]; cbn; [auto|]. destruct o; cbn; auto. Qed.
 
 Lemma prog_logr th a b : prog (logr th a b) = prog th. Proof. reflexivity. Qed.
-Lemma prog_logk th k : prog (logk th k) = prog th. Proof. unfold logk. destruct (k =? 2); reflexivity. Qed.
+Lemma prog_logk th k w : prog (logk th k w) = prog th. Proof. unfold logk. destruct (k =? 2); reflexivity. Qed.
 
 Lemma in32_wrap_s z : in32 (wrap_s 32 z).
 Proof. unfold in32. pose proof (wrap_s_range 32 z ltac:(lia)) as R. replace (32 - 1) with 31 in R by lia. exact R. Qed.
